@@ -12,14 +12,15 @@ from mc.common import HarnessError, Stats, pmap, safe, shards, scratch_dir, rm_s
 PROPERTY = 'C13'
 LEVEL = 'model_checking'
 RULE = ('state = the four process-global stores; event = one mini-batch handed to compute_cardinalities / compute_value_counts / compute_coverage. Every row sequence of length '
-        'n<=4 (quick) / n<=5 (thorough) over two columns with cells {"", u, uü} x EVERY composition of n into consecutive batches x rare-value thresholds {0,1,2} x histogram '
+        'n<=4 (quick) / n<=5 (thorough) over two columns with cells {"", u, uu} in columns named c / cu (and {"", u, uü} for n <= 3) x EVERY composition of n into consecutive batches x rare-value thresholds {0,1,2} x histogram '
         'bounds {1,2,30000}; differential oracle (final stores of every composition == those of the single-batch history) + absolute oracle (exact recount); coverage family over '
         '{"", "{}", NA, u} x three missing-symbol sets; end-to-end family through the ranking task (name annotations, value_repetitions.json, rare_values.tsv). '
         'states = distinct (rows consumed, store contents) reached; transitions = batches applied. non-trivial = histories with >= 2 batches')
 ASSUMPTIONS = ['cardinality sketch used far below its warm-up capacity (exact range); 32-bit hash collisions excluded by the statement']
 
-CELLS = ['', 'u', 'u\u00fc']   # 'uü' and 'u' differ only by a non-ASCII character
-COLS = ['c1', 'c2']
+CELLS = ['', 'u', 'uu']       # with the column names below, ('c','uu') and ('cu','u') concatenate to the same text
+CELLS_UNI = ['', 'u', 'u\u00fc']   # 'uü' and 'u' differ only by a non-ASCII character (used for n <= 3)
+COLS = ['c', 'cu']
 
 
 def cr():
@@ -114,10 +115,10 @@ def judge_history(rows, comp, st, seen_states):
 
 
 def _hist_job(job):
-    n, lo, hi = job
+    n, lo, hi = job[:3]
     st = Stats()
     seen = set()
-    kinds = list(itertools.product(CELLS, repeat=2))
+    kinds = list(itertools.product(CELLS_UNI if len(job) > 3 else CELLS, repeat=2))
     comps = list(enum.compositions(n))
     for seq in itertools.islice(itertools.product(kinds, repeat=n), lo, hi):
         rows = [list(r) for r in seq]
@@ -138,10 +139,10 @@ def _coverage_job(_):
     C = cr()
     import pandas as pd
     st = Stats()
-    cells = ['', '{}', 'NA', 'u']
-    for k in (1, 2, 3, 4):
+    cells = ['', '{}', 'NA', 'u', ' ', ' NA']
+    for k in (1, 2, 3):
         for col in itertools.product(cells, repeat=k):
-            for sym in (',{}', '{}', 'NA', 'NA,{}'):
+            for sym in (',{}', '{}', 'NA', 'NA,{}', ' , NA', ' '):     # symbols may consist of or contain blanks
                 args = harness.make_args(missing_value_symbols=sym)
                 df = pd.DataFrame({'c1': list(col), 'c2': ['u'] * k})
                 ok, got = safe(C.compute_coverage, df, args)
@@ -201,6 +202,8 @@ def run(ctx):
     for n in range(1, nmax + 1):
         tot = 9 ** n
         jobs += [('hist', (n, lo, hi)) for lo, hi in shards(tot, 256 if n >= 5 else (64 if n == 4 else 8))]
+        if n <= 3:
+            jobs += [('hist', (n, lo, hi, 'uni')) for lo, hi in shards(tot, 8)]
     jobs.append(('cov', None))
     ec = e2e_cases(ctx.thorough)
     jobs += [('e2e', ec[i::8]) for i in range(8)]
